@@ -279,6 +279,26 @@ class Interp:
                     if ec is None and val.attr in ("value", "name") and isinstance(val.value, ast.Attribute):
                         ec = self.enum_value(val.value, stub)
                     cache[ck] = ec
+                elif isinstance(val, ast.Dict) and val.keys and all(k is not None for k in val.keys):
+                    # a dispatch table: {enum member / constant: module-level function or constant}
+                    pairs = []
+                    for k, v in zip(val.keys, val.values):
+                        kk = self.enum_value(k, stub) if isinstance(k, ast.Attribute) else (("c", k.value) if isinstance(k, ast.Constant) else None)
+                        vv = None
+                        if isinstance(v, ast.Name):
+                            k3, p3 = self.prog.lookup_name(v.id, None, m)
+                            if k3 == "func":
+                                vv = ("f", p3.qual)
+                        elif isinstance(v, ast.Attribute):
+                            vv = self.enum_value(v, stub)
+                        elif isinstance(v, ast.Constant) and (v.value is None or isinstance(v.value, (bool, int, float, str))):
+                            vv = ("c", v.value)
+                        if kk is None or vv is None:
+                            pairs = None
+                            break
+                        pairs.append((kk, vv))
+                    if pairs:
+                        cache[ck] = ("d", tuple(pairs))
                 elif isinstance(val, ast.Call) and isinstance(val.func, ast.Name):
                     # `_STOP_X = _Stop(EventName.A, StopReason.B)`: a constant record (a row of a table written as data)
                     k2, p2 = self.prog.lookup_name(val.func.id, None, m)
@@ -390,6 +410,10 @@ class Interp:
                 mc = self._module_const(e.id, fi)
                 if mc is not None:
                     return mc
+                if e.id not in self.prog.func_locals(fi):
+                    k0, p0 = self.prog.lookup_name(e.id, fi, fi.module)
+                    if k0 == "func" and p0.parent is None:
+                        return ("f", p0.qual)  # a module-level function used as a value (default of a table lookup)
             if isinstance(e, ast.Attribute):
                 ec = self.enum_value(e, fi)
                 if ec is not None:
@@ -1011,6 +1035,10 @@ class Interp:
         fi = cfg.func
         self.stats["calls"] += 1
         targets = self.prog.resolve_call(call, fi)
+        if isinstance(call.func, ast.Name) and all(t.kind in ("unknown", "callback") for t in targets):
+            fv = self.ev(call.func, env, cfg)
+            if fv is not None and fv[0] == "f" and fv[1] in self.prog.funcs:
+                targets = [Target("repo", func=self.prog.funcs[fv[1]], via="function value")]
         for tg in targets:
             ev = Event("call", node, cfg, self, env, stack, target=tg, category=tg.category)
             self.stats["events"] += 1
@@ -1110,6 +1138,15 @@ class Interp:
     def _lib_value(self, call: ast.Call, name: str, env: dict, cfg: CFG) -> Any:
         if name == "typing.cast" and len(call.args) == 2:
             return self.ev(call.args[1], env, cfg)
+        if isinstance(call.func, ast.Attribute) and call.func.attr == "get" and 1 <= len(call.args) <= 2 and not call.keywords:
+            # lookup in a constant dispatch table with a known key
+            tab = self.ev(call.func.value, env, cfg)
+            key = self.ev(call.args[0], env, cfg)
+            if tab is not None and tab[0] == "d" and key is not None and key[0] in ("c", "e"):
+                for k, v in tab[1]:
+                    if k == key:
+                        return v
+                return self.ev(call.args[1], env, cfg) if len(call.args) == 2 else ("c", None)
         if name.endswith(("dataclasses.replace", "._replace")) or name == "replace":
             # dataclasses.replace(rec, f=v, ...) / namedtuple._replace(f=v): a copy of the record with those fields changed
             base_e = call.args[0] if call.args and not name.endswith("._replace") else (call.func.value if isinstance(call.func, ast.Attribute) else None)
